@@ -20,5 +20,12 @@ for d in sorted(glob.glob(os.path.join(VERIF, "seeded", "C*"))):
     det = m.get("detected_by") or []
     by = "; ".join("%s (%s)" % (x["property"], ", ".join(c.split(".", 1)[-1] for c in x["classes"][:3])) for x in det) or "**missed**" + (": " + m["miss_reason"] if m.get("miss_reason") else "")
     rows.append("| %s | %s | %s | %s |" % (m["name"], ", ".join(os.path.basename(f) for f in files), title[:110].replace("|", "/"), by))
-print("| seed | file | change | caught by (quick tier, classes) |\n|---|---|---|---|")
-print("\n".join(rows))
+table = "| seed | file | change | caught by (quick tier, classes) |\n|---|---|---|---|\n" + "\n".join(rows)
+import sys
+if "--write" in sys.argv:
+    dp = os.path.join(VERIF, "DESIGN.md")
+    d = open(dp).read()
+    a, b = d.index("<!-- seedtable:begin -->") + len("<!-- seedtable:begin -->"), d.index("<!-- seedtable:end -->")
+    open(dp, "w").write(d[:a] + "\n" + table + "\n" + d[b:])
+else:
+    print(table)
